@@ -1,5 +1,6 @@
 import GsModel.Names.Mangle
 import GsModel.Gen.Formats
+import GsModel.Names.Timeout
 /-
   C01 — Generated code always builds.   (proof, PARTIAL: see below)
 
@@ -14,6 +15,9 @@ import GsModel.Gen.Formats
   * format tables (`generator/formats.go`): every string format that maps to a strfmt type is known to the parameter
     templates as a custom formatter (`strfmt_formats_have_formatter`) and has a zero value (`strfmt_formats_have_zero`);
     numeric formats have a converter and a formatter, the two tables have the same keys and pair ConvertX with FormatX.
+  * `timeout_field_fresh` — for EVERY set of parameter names, `renameTimeout` (whose Go recursion has no bound of its own)
+    terminates within maxLen+8 steps and returns a name for the client's private timeout field that collides with none of
+    them, case-insensitively (`rename_sound`, `bump_terminates`); tied by correspondence through a verif accessor.
   What is NOT proved: that the templates produce well-typed Go.  There is no model of the Go type checker; that part of the
   property is decided by compiling generated code (the build oracle of the check) and is exploration, not proof.
 -/
@@ -104,5 +108,93 @@ theorem converters_formatters_paired :
 
 theorem base_types_have_zero :
     ∀ tg ∈ typeMapping, tg.1 ≠ "file" → (zeroes.lookup tg.2).isSome = true := by decide
+
+end Gs.Props.C01
+
+/-! ### the client's private timeout field (`renameTimeout`) -/
+
+namespace Gs.Props.C01
+open Gs.Names
+
+theorem rename_sound (seen : List Nm) : ∀ (fuel : Nat) (name r : Nm),
+    renameTimeout seen fuel name = some r → seen.contains (lowerN r) = false
+  | 0, name, r, h => by
+    simp only [renameTimeout] at h
+    split at h
+    · cases h
+    · rename_i hc; cases h; simpa using hc
+  | fuel+1, name, r, h => by
+    simp only [renameTimeout] at h
+    split at h
+    · split at h
+      · exact rename_sound seen fuel _ r h
+      · exact rename_sound seen fuel _ r h
+    · rename_i hc; cases h; simpa using hc
+
+theorem length_lowerN (s : Nm) : (lowerN s).length = s.length := by simp [lowerN]
+
+theorem mem_le_maxLen : ∀ (seen : List Nm) (x : Nm), x ∈ seen → x.length ≤ maxLen seen
+  | [], _, h => by simp at h
+  | y :: r, x, h => by
+    simp only [List.mem_cons] at h
+    simp only [maxLen]
+    rcases h with rfl | h
+    · exact Nat.le_max_left _ _
+    · exact Nat.le_trans (mem_le_maxLen r x h) (Nat.le_max_right _ _)
+
+theorem long_not_seen (seen : List Nm) (name : Nm) (h : name.length > maxLen seen) : seen.contains (lowerN name) = false := by
+  cases hc : seen.contains (lowerN name) with
+  | false => rfl
+  | true =>
+    have hm : lowerN name ∈ seen := by simpa using hc
+    have := mem_le_maxLen seen _ hm
+    rw [length_lowerN] at this
+    omega
+
+/-- a name that ends in '1' is not a key of the fixed chain -/
+theorem bumped_past_chain (name : Nm) : nextFixed (lowerN (name ++ ['1'])) = none := by
+  have hl : (lowerN (name ++ ['1'])).getLast? = some '1' := by simp [lowerN]
+  unfold nextFixed
+  repeat' split
+  all_goals first
+    | rfl
+    | (rename_i h; rw [h] at hl; revert hl; decide)
+
+/-- past the fixed chain the name only grows, so the search stops as soon as it is longer than every parameter name -/
+theorem bump_terminates (seen : List Nm) : ∀ (fuel : Nat) (name : Nm), nextFixed (lowerN name) = none →
+    name.length + fuel > maxLen seen → ∃ r, renameTimeout seen fuel name = some r
+  | 0, name, _, h => by
+    have := long_not_seen seen name (by omega)
+    exact ⟨name, by simp only [renameTimeout, this]; rfl⟩
+  | fuel+1, name, hp, h => by
+    simp only [renameTimeout, hp]
+    split
+    · exact bump_terminates seen fuel (name ++ ['1']) (bumped_past_chain name) (by simp; omega)
+    · exact ⟨name, rfl⟩
+
+theorem stage (seen : List Nm) (fuel : Nat) (name nx : Nm) (hn : nextFixed (lowerN name) = some nx)
+    (hnext : ∃ r, renameTimeout seen fuel nx = some r) : ∃ r, renameTimeout seen (fuel+1) name = some r := by
+  simp only [renameTimeout, hn]
+  split
+  · exact hnext
+  · exact ⟨name, rfl⟩
+
+/-- for EVERY set of parameter names the search for the timeout field's name terminates (the Go recursion has no bound of
+    its own) and returns a name that collides with none of them, case-insensitively -/
+theorem timeout_field_fresh (seen : List Nm) :
+    ∃ r, renameTimeout seen (maxLen seen + 8) "timeout".toList = some r ∧ seen.contains (lowerN r) = false := by
+  have h6 : ∃ r, renameTimeout seen (maxLen seen + 2) "operTimeout".toList = some r :=
+    bump_terminates seen _ _ (by decide) (by simp; omega)
+  have h5 := stage seen (maxLen seen + 2) "opTimeout".toList "operTimeout".toList (by decide) h6
+  have h4 := stage seen (maxLen seen + 3) "operationTimeout".toList "opTimeout".toList (by decide) h5
+  have h3 := stage seen (maxLen seen + 4) "swaggerTimeout".toList "operationTimeout".toList (by decide) h4
+  have h2 := stage seen (maxLen seen + 5) "httpRequestTimeout".toList "swaggerTimeout".toList (by decide) h3
+  have h1 := stage seen (maxLen seen + 6) "requestTimeout".toList "httpRequestTimeout".toList (by decide) h2
+  have h0 := stage seen (maxLen seen + 7) "timeout".toList "requestTimeout".toList (by decide) h1
+  obtain ⟨r, hr⟩ := h0
+  exact ⟨r, hr, rename_sound seen _ _ r hr⟩
+
+/-- non-vacuity: parameters named timeout, requestTimeout and HTTPRequestTimeout push the field to swaggerTimeout -/
+example : renameTimeout ["timeout".toList, "requesttimeout".toList, "httprequesttimeout".toList] 20 "timeout".toList = some "swaggerTimeout".toList := by decide
 
 end Gs.Props.C01
